@@ -1,21 +1,57 @@
-import sys
-pid=sys.argv[1]; n=sys.argv[2] if len(sys.argv)>2 else "3"
-prop=open('/tmp/wt/prop_%s.txt'%pid).read()
-print(f"""You are helping test a verification effort for the Go library "mangle" (a Datalog-extension language: parser, static analysis, stratification, bottom-up evaluation engines, fact stores). You have your own scratch git worktree of the repository at /tmp/wt/{pid} (a detached checkout; work ONLY inside it; never touch /repo or /verif; do not read anything under /verif).
+#!/usr/bin/env python3
+"""Prompt generator for the independent sub-agents (see DESIGN.md section 6).
+
+usage: agent_prompt.py break  <property-id> <worktree> [n]   breaking changes for one property
+       agent_prompt.py benign <property-id> <worktree> [n]   behaviour-preserving refactors near a property's anchors
+
+The prompt contains only the property's own text from properties.jsonl and the
+path of the agent's scratch worktree - nothing from /verif's machinery.
+"""
+import json, sys
+
+mode, pid, wt = sys.argv[1], sys.argv[2], sys.argv[3]
+n = sys.argv[4] if len(sys.argv) > 4 else "4"
+prop = None
+for line in open('/verif/properties.jsonl'):
+    p = json.loads(line)
+    if p['id'] == pid:
+        prop = p
+a = prop['anchors']
+text = f"""Title: {prop['title']}
+Statement: {prop['statement']}
+Quantified over: {prop['quantifier']['text']}
+Why the existing tests do not settle it: {prop['why_tests_cant']}
+Code the property is anchored in: files {', '.join(a.get('files', []))}
+Mechanisms: {'; '.join(m['name'] + ' @ ' + m['where'] for m in a.get('mechanism', []))}
+Observed through: {'; '.join(a.get('observe_at', []))}"""
+
+common = f"""You are helping test a verification effort for the Go library "mangle" (a Datalog-extension language: ANTLR parser, static analysis, stratification, bottom-up evaluation engines, fact stores, temporal reasoning, provenance). You have your own scratch git worktree of the repository at {wt} (a detached checkout; work ONLY inside it; never touch /repo or /verif; do not read anything under /verif).
 
 Environment for every shell call (env does not persist between calls; there is no network):
   export PATH=/opt/veriftools/go1.26.8/bin:$PATH GOFLAGS=-mod=mod GOPROXY=off GOSUMDB=off GOTOOLCHAIN=local
-The full test suite is `cd /tmp/wt/{pid} && go test -vet=off -count=1 ./...` (about 10 s).
+The full test suite is `cd {wt} && go test -vet=off -count=1 ./...` (under a minute).
 
-Here is a semantic property of the library that is supposed to hold:
+Here is a semantic property of the library that is supposed to hold (line numbers in it are approximate):
 
-{prop}
+{text}
+"""
 
-Your task: produce {n} DIFFERENT, independent source changes ("mutations") to the library's non-test Go code (not in parse/gen), each of which BREAKS this property while (a) the repository still compiles (`go build ./...`), and (b) the complete existing test suite still passes unchanged. Each mutation should be realistic - the kind of slip or well-meant "optimisation"/"cleanup"/refactor a maintainer could plausibly make - and SUBTLE: it should need something specific to manifest (a particular multi-step sequence of operations, an unusual input or boundary value, a particular interleaving, two cooperating sites that each look fine alone, a corner such as equal start points/zero arity/empty input), not something ordinary use would expose at once. Prefer changes of different kinds and at different sites from one another (e.g. one dropped/reordered call, one changed comparison or boundary, one missing case or forgotten field, one weakened guard/lock, one wrong variable). Keep each mutation small (a few lines). Note: the current code may already contain real bugs against this property; do not rely on those - your demonstration must PASS on the unmodified worktree and FAIL with your mutation.
+if mode == 'break':
+    print(common + f"""
+Your task: produce {n} DIFFERENT, independent source changes ("mutations") to the library's non-test Go code (not in parse/gen), each of which BREAKS this property while (a) the repository still compiles (`go build ./...`), and (b) the complete existing test suite still passes unchanged. Each mutation should be realistic - the kind of slip or well-meant "optimisation"/"cleanup"/refactor a maintainer could plausibly make - and SUBTLE: it must need something specific to manifest (a particular multi-step sequence of operations, an unusual input or boundary value, a particular interleaving, a crash or fault at a particular point, two cooperating sites that each look fine alone, a corner such as equal start points / zero arity / empty input / hash collision / nested value), not something ordinary use would expose at once. The obvious sites have been tried before: spread your mutations over DIFFERENT files, functions and mechanisms named above (and their helpers and callers), and make them of different kinds (e.g. one dropped/reordered call, one changed comparison or boundary, one missing case or forgotten field, one weakened guard/lock, one wrong variable, one stale cache, one aliasing/copy slip). Keep each mutation small (a few lines). Note: do not rely on bugs the current code may already have - your demonstration must PASS on the unmodified worktree and FAIL with your mutation.
 
-For each mutation k = 1..{n}, create the directory /tmp/wt/{pid}/_out/m<k>/ containing:
+For each mutation k = 1..{n}, create the directory {wt}/_out/m<k>/ containing:
   - patch.diff : output of `git diff` (relative to the worktree root, library code only, not including the demo), applicable with `git apply`;
-  - demo_test.go : a Go test file (state in its first comment line which package directory it must be copied into, e.g. `// place in: factstore/`), which passes on the unmodified tree and fails (or panics / times out) with the mutation applied;
+  - demo_test.go : a Go test file (state in its first comment line which package directory it must be copied into, e.g. `// place in: factstore/`), which passes on the unmodified tree and fails (or panics / times out) with the mutation applied; use test function names starting with TestDemo;
   - meta.json : {{"property": "{pid}", "summary": "<one sentence: what was changed>", "needs": "<what specific input/sequence/interleaving is needed for it to manifest>", "files": ["..."], "demo_cmd": "<go test command to run the demo>"}}.
 
 Procedure for each mutation: start from a clean worktree (`git checkout -- . && git clean -fd -e _out`), copy the demo in and verify it PASSES; apply the mutation; verify `go build ./...` works, the demo FAILS, and then remove the demo file and verify the full existing suite still PASSES with the mutation; save `git diff` as patch.diff; revert. If a candidate is caught by the existing suite, discard it and find another. Do not modify existing test files. Do not add build tags. When finished, leave the worktree clean except for _out/, and reply with a short list: for each mutation its one-line summary and the demo command. Be efficient; do not write long explanations.""")
+else:
+    print(common + f"""
+Your task is the OPPOSITE of breaking it: produce {n} DIFFERENT, independent BEHAVIOUR-PRESERVING changes to the library's non-test Go code (not in parse/gen) in and around the functions that implement this property (the files and mechanisms named above, their helpers and callers). Each change must leave the observable behaviour of the library exactly as it is (the property still holds, every public function returns the same results and errors for every input), compile (`go build ./...`) and pass the complete existing test suite. They should be the kind of change maintainers make all the time, for example: extracting a helper function or inlining one; renaming local variables, parameters or an unexported function; replacing an if/else-if chain by a switch or the reverse; inverting a condition with early return / continue; converting an index loop to a range loop or the reverse; hoisting a repeated expression into a local variable; reordering independent statements, struct fields or switch cases; preallocating a slice or map with a capacity; replacing a hand-written loop by a standard-library helper (slices, maps, sort, strings packages) or the reverse; adding a doc comment, an unexported debug counter field, or an extra defensive check that can never fire; splitting a long function into two; changing a value receiver's name; using a named result. Make the changes of different kinds and at different functions from one another, each touching 5-60 lines, and prefer the central functions of the mechanisms listed above over peripheral code. Do NOT change behaviour, error texts, exported API or iteration order that callers can observe.
+
+For each change k = 1..{n}, create the directory {wt}/_out/b<k>/ containing:
+  - patch.diff : output of `git diff` (relative to the worktree root), applicable with `git apply`;
+  - meta.json : {{"property": "{pid}", "summary": "<one sentence: what was refactored and why it preserves behaviour>", "files": ["..."]}}.
+
+Procedure for each change: start from a clean worktree (`git checkout -- . && git clean -fd -e _out`); make the change; verify `go build ./...` and the full suite PASS; save `git diff` as patch.diff; revert. Do not modify test files. Do not add build tags. When finished, leave the worktree clean except for _out/, and reply with a short list of the one-line summaries. Be efficient; do not write long explanations.""")
